@@ -363,6 +363,7 @@ struct Runner {
       break;
     case HT_EMPTY:
       if (!m.ht) { applicable = false; break; }
+      if (m.keys.empty() && m.removed_since_create) res.probes["ht_drain_cycle"]++; // emptied after every element was removed
       after.keys.clear();
       j = guarded([&] { im->ht_empty(); });
       break;
